@@ -1,4 +1,4 @@
-(* C14 phase 2: agreement of the two reader models on modules without blackbox instances (part A1) *)
+(* C14 phase 2: agreement of the two reader models on the documented subset (part A1) *)
 From stdpp Require Import strings gmap sets pretty.
 From CG Require Import Proofs.FvA0.
 From CG Require Import Model.FastVerilog Proofs.FastVerilogProofs.
@@ -40,4 +40,11 @@ Proof.
         -- rewrite decide_False; [done|]. intros [Hin Hnd]. apply Hn. split.
            ++ apply elem_of_cons in Hin as [->|Hin]; done.
            ++ rewrite dom_insert. set_solver.
+Qed.
+
+Lemma fanout_empty_iff g t : fanout g t = ∅ ↔ ∀ m i, g !! m = Some i → t ∉ n_fi i.
+Proof.
+  split.
+  - intros H m i Hi Hin. assert (m ∈ fanout g t) by (apply elem_of_fanout; eauto). set_solver.
+  - intros H. apply set_eq. intros x. rewrite elem_of_fanout. split; [|set_solver]. intros (i & Hi & Hin). by destruct (H x i Hi).
 Qed.
